@@ -151,6 +151,14 @@ def in_range(v, ty):
     return (-(1 << (w - 1)) <= v < (1 << (w - 1))) if signed else (0 <= v < (1 << w))
 
 
+def _exp(v):
+    import math
+    try:
+        return math.exp(v)
+    except OverflowError:
+        return float('inf')
+
+
 def _float_method(nm, x, args):
     import math
     if not isinstance(x, (int, float)) or isinstance(x, bool):
@@ -160,7 +168,19 @@ def _float_method(nm, x, args):
         if nm == 'sqrt' and x < 0:
             return float('nan')
         return {'cos': math.cos, 'sin': math.sin, 'sqrt': math.sqrt, 'abs': abs, 'floor': lambda v: float(math.floor(v)), 'ceil': lambda v: float(math.ceil(v)),
-                'round': lambda v: float(math.floor(abs(v) + 0.5)) * (1 if v >= 0 else -1), 'exp': math.exp, 'ln': math.log, 'tan': math.tan, 'atan': math.atan}[nm](x)
+                'round': lambda v: float(math.floor(abs(v) + 0.5)) * (1 if v >= 0 else -1), 'exp': _exp, 'ln': math.log, 'tan': math.tan, 'atan': math.atan}[nm](x)
+    if nm == 'clamp' and len(args) == 2 and all(isinstance(a_, (int, float)) and not isinstance(a_, bool) for a_ in args):
+        lo, hi = float(args[0]), float(args[1])
+        if not lo <= hi:
+            raise Panics('clamp with min > max or a NaN bound')
+        return x if x != x else min(max(x, lo), hi)
+    if nm in ('min', 'max') and len(args) == 1 and isinstance(args[0], float):
+        y = args[0]
+        if x != x:
+            return y
+        if y != y:
+            return x
+        return min(x, y) if nm == 'min' else max(x, y)
     if nm == 'powi' and len(args) == 1:
         return x ** args[0]
     if nm == 'atan2' and len(args) == 1:
@@ -239,6 +259,52 @@ def deep_clone(v):
     if isinstance(v, tuple) and not isinstance(v, Obj) and any(isinstance(x, (dict, list, tuple)) for x in v):
         return tuple(deep_clone(x) for x in v)
     return v
+
+
+class HSet(Obj):
+    """HashSet / BTreeSet of hashable values: membership only (iteration order of a hash set is unspecified, so iterating one is not evaluated)"""
+    def __init__(self, items=(), ordered=False):
+        self.s = set(_hashable(x) for x in items)
+        self.ordered = ordered
+        Obj.__init__(self, 'set', {
+            'insert': self._insert, 'contains': lambda a: _hashable(_uncell(a[0])) in self.s, 'remove': self._remove,
+            'len': lambda a: len(self.s), 'is_empty': lambda a: not self.s, 'clear': lambda a: self.s.clear() or (),
+            'iter': self._iter, 'into_iter': self._iter, 'extend': lambda a: self.s.update(_hashable(x) for x in a[0]) or (),
+        }, strict=True)
+
+    def _insert(self, a):
+        x = _hashable(_uncell(a[0]))
+        new = x not in self.s
+        self.s.add(x)
+        return new
+
+    def _remove(self, a):
+        x = _hashable(_uncell(a[0]))
+        had = x in self.s
+        self.s.discard(x)
+        return had
+
+    def _iter(self, a):
+        if self.ordered:
+            return sorted(self.s)
+        if len(self.s) <= 1:
+            return list(self.s)
+        raise NoEval('iteration over a hash set')
+
+    def mr_clone(self):
+        r = HSet((), self.ordered)
+        r.s = set(self.s)
+        return r
+
+    def __eq__(self, o):
+        return isinstance(o, HSet) and self.s == o.s
+
+    def __hash__(self):
+        return hash(frozenset(self.s))
+
+
+def _uncell(x):
+    return x.get() if isinstance(x, Cell) else x
 
 
 SOME = 'Some'
@@ -390,6 +456,14 @@ class Interp:
                     return self.bind(p['sub'][0], v[1], env)
                 if v == NONE:
                     return False
+            if isinstance(v, tuple) and len(v) == 3 and v[0] == 'ctor' and c:
+                if v[1] != c:
+                    if (v[1] or '').rsplit('::', 1)[0] != c.rsplit('::', 1)[0]:
+                        raise NoEval('pattern %s on a value of another type' % hir.pp_pat(p))
+                    return False
+                if len(v[2]) != len(p['sub']):
+                    raise NoEval('pattern %s arity' % hir.pp_pat(p))
+                return all(self.bind(sp, x, env) for sp, x in zip(p['sub'], v[2]))
             raise NoEval('pattern %s' % hir.pp_pat(p))
         if k == 'Struct':
             if isinstance(v, Cell):
@@ -425,7 +499,28 @@ class Interp:
             v = v.get() if isinstance(v, Cell) else v
             return (-lv_ if p.get('neg') else lv_) == v
         if k == 'Range':
-            raise NoEval('range pattern')
+            v = v.get() if isinstance(v, Cell) else v
+
+            def bound(b):
+                if b is None:
+                    return None
+                if b.get('k') == 'Lit':
+                    x = hir.lit_int({'k': 'Lit', 'v': b['v']})
+                    if x is None:
+                        mc_ = re.match(r"^Char\('(.*)'\)$", b.get('v') or '', re.S)
+                        if mc_:
+                            return hir._unescape(mc_.group(1))
+                        raise NoEval('range pattern bound %s' % b.get('v'))
+                    return -x if b.get('neg') else x
+                if b.get('k') == 'Path':
+                    return self.ev({'k': 'Path', 'res': b['res'], 'ty': ''}, env)
+                raise NoEval('range pattern bound')
+            if 'lo' not in p:
+                raise NoEval('range pattern')
+            lo_, hi_ = bound(p.get('lo')), bound(p.get('hi'))
+            if isinstance(v, bool) or not isinstance(v, (int, str)) or any(b is not None and type(b) is not type(v) for b in (lo_, hi_)):
+                raise NoEval('range pattern on %r' % (v,))
+            return (lo_ is None or lo_ <= v) and (hi_ is None or (v <= hi_ if p.get('incl') else v < hi_))
         if k == 'Or':
             return any(self.bind(sp, v, env) for sp in p['sub'])
         if k == 'Slice':
@@ -454,6 +549,8 @@ class Interp:
                 e1 = e1['expr']
             if e1.get('k') in ('Path', 'Field', 'Index') or (e1.get('k') == 'Unary' and e1.get('op') == 'Deref'):
                 return deep_clone(v)
+        if isinstance(v, tuple) and len(v) == 3 and v[0] == 'ctor' and v[2] and e.get('k') in ('Path', 'Field', 'Index', 'Unary') and not (e.get('ty') or '').startswith('&'):
+            return deep_clone(v)       # an enum value with a payload read out of a place: a copy or a move, never an alias
         return v
 
     def ev(self, e, env):
@@ -622,6 +719,13 @@ class Interp:
                         raise Panics('attempt to divide by zero')
                     q_ = abs(a) // abs(b) * (1 if (a >= 0) == (b >= 0) else -1)      # Rust truncates toward zero
                     return q_ if op == 'Div' else a - b * q_
+                if op in ('Div', 'Rem') and isinstance(a, float) and isinstance(b, float):
+                    import math
+                    if op == 'Rem':
+                        return math.fmod(a, b) if (b != 0 and not math.isinf(a)) else float('nan')
+                    if b == 0:
+                        return float('nan') if (a == 0 or a != a) else math.copysign(float('inf'), a) * math.copysign(1.0, b)
+                    return a / b
                 return {'Add': lambda: a + b, 'Sub': lambda: a - b, 'Mul': lambda: a * b, 'Div': lambda: a // b, 'Rem': lambda: a % b,
                         'Eq': lambda: a == b, 'Ne': lambda: a != b, 'Lt': lambda: a < b, 'Le': lambda: a <= b, 'Gt': lambda: a > b, 'Ge': lambda: a >= b}[op]()
             except (KeyError, TypeError, ZeroDivisionError):
@@ -854,6 +958,8 @@ class Interp:
             t = e.get('ty') or ''
             if 'HashMap' in t or 'BTreeMap' in t:
                 return {}
+            if re.search(r'\b(Hash|BTree)Set<', t):
+                return HSet((), 'BTreeSet' in t)
             if 'Vec' in t:
                 return []
         if c in ('num::One::one', 'num::Zero::zero', 'num_traits::One::one', 'num_traits::Zero::zero') and not e['args']:
@@ -939,6 +1045,8 @@ class Interp:
                 return self.local_call(k_, [recv])
         if isinstance(recv, Obj):
             if nm in recv.methods:
+                if hasattr(recv, 'mr_site'):
+                    recv.mr_site = id(e)         # the call site, for hosts that budget per site (rejection loops)
                 return recv.methods[nm]([self.ev(x, env) for x in args])
             if not recv.strict:
                 raise Proceed('%s.%s' % (recv.name, nm))
@@ -980,7 +1088,20 @@ class Interp:
             if nm == 'unwrap_or_default' and not args:
                 if recv != NONE:
                     return recv[1]
-                raise NoEval('unwrap_or_default on None')
+                t0_ = (e.get('ty') or '').strip()
+                if int_ty(t0_) is not None:
+                    return 0
+                if t0_ == 'bool':
+                    return False
+                if t0_ in ('f64', 'f32'):
+                    return 0.0
+                if t0_.endswith('string::String'):
+                    return ''
+                if t0_.replace('std::vec::', '').replace('alloc::vec::', '').startswith('Vec<'):
+                    return []
+                if t0_.replace('std::option::', '').startswith('Option<'):
+                    return NONE
+                raise NoEval('unwrap_or_default on None of type %s' % t0_)
             if nm in ('ok_or', 'ok_or_else') and len(args) == 1:
                 if recv != NONE:
                     return ('Ok', recv[1])
@@ -1032,6 +1153,37 @@ class Interp:
                 return len(recv)
             if nm == 'is_empty':
                 return not recv
+            if nm == 'clear' and '__struct__' not in recv:
+                recv.clear()
+                return ()
+        if isinstance(recv, tuple) and len(recv) == 2 and recv[0] in ('Ok', 'Err') and not isinstance(recv, Obj):
+            if nm in ('unwrap', 'expect'):
+                if recv[0] == 'Ok':
+                    return recv[1]
+                raise Panics('unwrap on an Err value')
+            if nm in ('unwrap_err', 'expect_err'):
+                if recv[0] == 'Err':
+                    return recv[1]
+                raise Panics('unwrap_err on an Ok value')
+            if nm == 'is_ok' and not args:
+                return recv[0] == 'Ok'
+            if nm == 'is_err' and not args:
+                return recv[0] == 'Err'
+            if nm == 'ok' and not args:
+                return some(recv[1]) if recv[0] == 'Ok' else NONE
+            if nm == 'err' and not args:
+                return some(recv[1]) if recv[0] == 'Err' else NONE
+            if nm == 'unwrap_or' and len(args) == 1:
+                return recv[1] if recv[0] == 'Ok' else A()
+            if nm == 'map' and len(args) == 1:
+                return ('Ok', A()(recv[1])) if recv[0] == 'Ok' else recv
+            if nm == 'map_err' and len(args) == 1:
+                return ('Err', A()(recv[1])) if recv[0] == 'Err' else recv
+        if isinstance(recv, list) and nm == 'try_into' and not args:
+            m_ = re.search(r'Result<\[.*; (\d+)\]', (e.get('ty') or '').replace('std::result::', ''))
+            if m_ is None:
+                raise NoEval('try_into to %s' % (e.get('ty'),))
+            return ('Ok', recv) if len(recv) == int(m_.group(1)) else ('Err', recv)
         if isinstance(recv, (list, tuple)) and not _is_opt(recv):
             L = list(recv)
             if nm == 'len' or nm == 'count':
@@ -1106,6 +1258,8 @@ class Interp:
                 t = e.get('ty') or ''
                 if 'Map' in t:
                     return dict(L)
+                if nm == 'collect' and re.search(r'\b(Hash|BTree)Set<', t):
+                    return HSet(L, 'BTreeSet' in t)
                 return sorted(L) if nm == 'sorted' else L
             if nm == 'any':
                 f = A()
